@@ -60,34 +60,34 @@ Lemma slot_value_oval : forall (p : bool) (v : val),
   slot_oval (if p then SAddr v else SVal v) = value_oval p v.
 Proof. intros [] v; reflexivity. Qed.
 
-Lemma model_obs_accepted : forall c o, model_obs c = Some o -> accepted (c_results c).
+Lemma model_obs_accepted : forall c o, model_obs c = Some o -> sig_accepted (c_results c).
 Proof.
   intros c o H. unfold model_obs, method_returns in H.
   destruct (cook_results (c_results c)) as [f|ck] eqn:Hc; [discriminate|].
-  apply cook_results_accepts in Hc. tauto.
+  apply sg_cook_results in Hc. tauto.
 Qed.
 
 (* the model's observation IS the expected one, on every case *)
 Theorem model_obs_is_expected : forall c m,
-  wf_results (c_results c) = true -> single_names (c_results c) = true ->
+  wf_results (c_results c) = true ->
   law_ok c = true -> model_obs c = Some m -> pobs_of m = expected c.
 Proof.
-  intros c o Hwf Hsn Hlaw Hm.
+  intros c o Hwf Hlaw Hm.
   pose proof (model_obs_accepted c o Hm) as Hacc.
   unfold model_obs in Hm.
   destruct (scenario_ok (c_body_verb c) (c_out c)) eqn:Hsc.
   2:{ (* impossible scenario: the model returns nothing *)
       exfalso. destruct (c_out c) as [[] x|r]; try discriminate Hsc.
       destruct (c_body_verb c); [discriminate Hsc|].
-      rewrite (mr_impossible_scenario val nat (fun _ _ => c_dec c) (c_results c) x Hwf Hacc) in Hm.
+      rewrite (sg_impossible_scenario val nat (fun _ _ => c_dec c) (c_results c) x Hwf Hacc) in Hm.
       discriminate Hm. }
-  rewrite (method_returns_refines_spec val nat (fun _ _ => c_dec c) (c_body_verb c) (c_results c) (c_out c) Hwf Hacc Hsc) in Hm.
+  rewrite (sg_refines_spec val nat (fun _ _ => c_dec c) (c_body_verb c) (c_results c) (c_out c) Hwf Hacc Hsc) in Hm.
   clear Hsc.
   unfold expected.
-  rewrite (declared_arity_single _ Hsn).
-  unfold law_ok in Hlaw.
-  destruct c as [bv rs out zero dec0 obs0]; simpl in *.
-  destruct rs as [|a [|b [|d [|e rest]]]]; simpl in Hacc; try contradiction.
+  rewrite declared_arity_values.
+  unfold law_ok in Hlaw. unfold declared_shape in *. unfold sig_accepted in Hacc.
+  destruct c as [bv rs0 out zero dec0 obs0]; simpl in *.
+  clear Hwf. destruct (values rs0) as [|a [|b [|d [|e rest]]]]; simpl in Hacc; try contradiction.
   - (* (response, error) *)
     unfold spec_returns, spec_events in Hm. simpl in Hm.
     destruct out as [st x|r]; simpl in Hm.
@@ -122,13 +122,13 @@ Proof.
 Qed.
 
 Theorem model_satisfies_Pb : forall c o,
-  wf_results (c_results c) = true -> single_names (c_results c) = true ->
+  wf_results (c_results c) = true ->
   law_ok c = true -> model_obs c = Some o -> Pb (with_obs c o) = true.
 Proof.
-  intros c o Hwf Hsn Hlaw Hm. unfold Pb.
+  intros c o Hwf Hlaw Hm. unfold Pb.
   change (c_obs (with_obs c o)) with o.
   change (expected (with_obs c o)) with (expected c).
-  rewrite (model_obs_is_expected c o Hwf Hsn Hlaw Hm). apply pobs_eqb_refl.
+  rewrite (model_obs_is_expected c o Hwf Hlaw Hm). apply pobs_eqb_refl.
 Qed.
 
 (* the boolean property holds of an observation exactly when it agrees with the
@@ -136,12 +136,12 @@ Qed.
    implementation differ but the property holds" can only stem from the body
    events (read / Close), which are not part of the property text *)
 Theorem Pb_iff_agrees_with_model : forall c m,
-  wf_results (c_results c) = true -> single_names (c_results c) = true ->
+  wf_results (c_results c) = true ->
   law_ok c = true -> model_obs c = Some m ->
   (Pb c = true <-> pobs_of (c_obs c) = pobs_of m).
 Proof.
-  intros c m Hwf Hsn Hlaw Hm. unfold Pb.
-  rewrite (model_obs_is_expected c m Hwf Hsn Hlaw Hm). split.
+  intros c m Hwf Hlaw Hm. unfold Pb.
+  rewrite (model_obs_is_expected c m Hwf Hlaw Hm). split.
   - apply pobs_eqb_eq.
   - intros ->. apply pobs_eqb_refl.
 Qed.
